@@ -4,7 +4,7 @@ from .. import core, gen
 from . import vcdfam
 
 PID = "C08"
-LEVEL = "translation_validation"
+LEVEL = "proof"
 RULE = ("HierarchyBuilder call sequences (open scope with/without flatten, add variable, pop) are driven through the real builder "
         "(hook) and the extracted Gallina model of its pointer structure; oracle: a rose-tree specification (open = enter the first "
         "same-named child scope of the nearest non-flattened ancestor, else flatten-marker, else new scope) evaluated in Python: "
